@@ -3,14 +3,41 @@ import json, os, sys, time, hashlib, re
 
 VERIF = os.path.dirname(os.path.dirname(os.path.abspath(__file__)))
 REPO = os.environ.get("VERIF_REPO", "/repo")
-BUILD = os.path.join(VERIF, ".build")
-KANI_CRATE = os.path.join(VERIF, "kani")
+ALT = REPO.rstrip("/") != "/repo"
+# VERIF_REPO=<scratch worktree> (seeded-mutation evaluation only): everything that is built or written -- harness crate copy,
+# target dirs, MIR dumps, evidence, replays -- lives under .build/alt-<hash>/ so that runs against different trees never mix
+# and the registered evidence under /verif/evidence is only ever written by runs against /repo itself.
+BUILD = os.path.join(VERIF, ".build") if not ALT else os.path.join(VERIF, ".build", "alt-" + hashlib.sha1(REPO.encode()).hexdigest()[:8])
+KANI_CRATE = os.path.join(VERIF, "kani") if not ALT else os.path.join(BUILD, "kani")
+NATIVE_CRATE = os.path.join(VERIF, "native") if not ALT else os.path.join(BUILD, "native")
 REPLAY_CRATE = os.path.join(VERIF, "replay")
-EVIDENCE = os.path.join(VERIF, "evidence")
-REPLAYS = os.path.join(VERIF, "replays")
+EVIDENCE = os.path.join(VERIF, "evidence") if not ALT else os.path.join(BUILD, "evidence")
+REPLAYS = os.path.join(VERIF, "replays") if not ALT else os.path.join(BUILD, "replays")
 KNOWN = os.path.join(VERIF, "known_findings.json")
 GUARD = "winterfell_verif"
 NCPU = int(os.environ.get("VERIF_JOBS", "16"))
+
+
+def sync_alt():
+    """VERIF_REPO runs: mirror the harness and native crates into BUILD with their path dependencies pointed at the tree"""
+    if not ALT:
+        return
+    import shutil
+    for name, dst in (("kani", KANI_CRATE), ("native", NATIVE_CRATE)):
+        src = os.path.join(VERIF, name)
+        for d, dirs, fs in os.walk(src):
+            dirs[:] = [x for x in dirs if x != "target"]
+            for fn in fs:
+                if fn.startswith("gen_") or fn == "Cargo.lock":
+                    continue
+                sp = os.path.join(d, fn)
+                dp = os.path.join(dst, os.path.relpath(sp, src))
+                os.makedirs(os.path.dirname(dp), exist_ok=True)
+                txt = open(sp).read()
+                if fn == "Cargo.toml":
+                    txt = txt.replace('"/repo/', '"' + REPO.rstrip("/") + "/")
+                if not os.path.exists(dp) or open(dp).read() != txt:
+                    open(dp, "w").write(txt)
 
 
 def seed():
